@@ -330,6 +330,9 @@ func startUpstream(s *script) *upstream {
 		if s.Kind == kWS && s.UTrig != uAtConnect {
 			writeSplit(reply[:s.WSHead])
 			reply = reply[s.WSHead:]
+			// keep the head apart from a payload whose trigger has already fired: what the relay's
+			// handshake reads return must not depend on the kernel coalescing the two writes
+			time.Sleep(120 * time.Millisecond)
 		}
 		// writer: wait for the trigger
 		u.mu.Lock()
@@ -1166,6 +1169,44 @@ func main() {
 			s.RSeg1 = 0
 		}
 		add(s, class+"-"+name)
+	}
+
+	// 3a. the handshake reply cut at every point inside the 12 bytes the relay tests (101 and
+	// non-101), and replies that end before 12 bytes have arrived
+	for k := 1; k <= 11; k++ {
+		for _, head := range []string{wsHead101, "HTTP/1.1 400 Bad Request\r\nContent-Length: 0\r\n\r\n"} {
+			if head != wsHead101 && k%3 != 0 && !run.Thorough() {
+				continue
+			}
+			s := g.base(kWS, false)
+			s.PP = false
+			payload := s.Reply
+			s.Reply = append([]byte(head), payload...)
+			s.RLit, s.WSHead, s.RSeg1 = len(s.Reply), len(head), k
+			name := g.ending(s, []int{0, 3, 4, 0}[r.Intn(4)])
+			if s.UTrig == uAfterBytes && r.Intn(2) == 0 {
+				s.UTrig = uAtConnect
+			}
+			class := "ws-101-split-at-every-point"
+			if head != wsHead101 {
+				class = "ws-refused-split-at-every-point"
+			}
+			add(s, class+"-"+name)
+		}
+	}
+	for i, n := range []int{1, 5, 10, 11, 11, 9} {
+		s := g.base(kWS, false)
+		s.PP = false
+		s.Reply = []byte(wsHead101[:n])
+		s.RLit, s.WSHead = n, n
+		s.RSeg1 = []int{0, 2, 4, 0, 10, 0}[i]
+		s.CEnd, s.CWait, s.UTrig, s.UEnd = cStay, false, uAtConnect, uClose
+		class := "ws-short-reply-then-close"
+		if i == 5 { // the upstream stays silent: the 1 s handshake deadline ends it
+			s.UEnd = uStay
+			class = "ws-short-reply-then-silence"
+		}
+		add(s, class)
 	}
 
 	// run them (a few at a time; every connection has its own upstream listener)
